@@ -111,18 +111,34 @@ def n_cells(region):
 
 
 def point_outside(R, region):
-    """(lon, lat) clearly outside the region (in a hole if there is one, else beyond the bbox)."""
+    """(lon, lat) clearly outside the region: in a hole, or beyond the bounding box.
+
+    Beyond the upper / right side only when that axis has at least two bins: for a lattice with a
+    single row or column the library treats the one bin as open-ended upwards (C01's business).
+    """
     if region['kind'] == 'cart':
         dh = region['dh']
         if region['holes'] and R.random() < 0.6:
             o = R.choice(region['holes'])
             return dec(o[0] + dh * 0.5, 8), dec(o[1] + dh * 0.5, 8)
-        # beyond the bounding box on its lower / left side only: for a lattice with a single row or
-        # column the library treats the one bin as open-ended upwards (C01's business, not ours)
         b = region['bbox']
-        if R.random() < 0.5:
-            return dec(b[0] - dh * 1.5, 8), dec(b[1] + dh * 0.5, 8)
-        return dec(b[0] + dh * 0.5, 8), dec(b[1] - dh * 1.5, 8)
+        nx = int(round((b[2] - b[0]) / dh))
+        ny = int(round((b[3] - b[1]) / dh))
+        sides = [0, 2]
+        if nx >= 2:
+            sides.append(1)
+        if ny >= 2:
+            sides.append(3)
+        side = R.choice(sides)
+        fx = R.randrange(nx) + 0.5
+        fy = R.randrange(ny) + 0.5
+        if side == 0:
+            return dec(b[0] - dh * 1.5, 8), dec(b[1] + dh * fy, 8)
+        if side == 1:
+            return dec(b[2] + dh * 1.5, 8), dec(b[1] + dh * fy, 8)
+        if side == 2:
+            return dec(b[0] + dh * fx, 8), dec(b[1] - dh * 1.5, 8)
+        return dec(b[0] + dh * fx, 8), dec(b[3] + dh * 1.5, 8)
     return None
 
 
